@@ -37,15 +37,23 @@ Proof.
   apply (thr_all_sound _ _ H) in Ht. unfold has_key in Ht. rewrite Ha, bool_decide_eq_true_2 in Ht; done.
 Qed.
 
+Definition net_openb (s : svstate) : bool :=
+  thr_all s (λ t, match st_op t with SShutdown => bool_decide (st_pc t = VShFlag) || bool_decide (st_pc t = VShNet) | _ => true end).
+Lemma net_openb_sound s : net_openb s = true → net_open s.
+Proof.
+  intros H tid t Ht Hop. apply (thr_all_sound _ _ H) in Ht. rewrite Hop in Ht. simpl in Ht.
+  apply orb_prop in Ht as [Ht|Ht]; apply bool_decide_eq_true in Ht; auto.
+Qed.
+
 Definition sitem_okb (s : svstate) (it : sitem) : bool :=
   match it with
   | VCall tid op =>
       match op with
       | STry sid _ k z lt | SLock sid _ k z lt =>
           thr_all s (λ t, negb (has_key k t)) && bool_decide (SvConnect sid ∈ v_trace s) && negb (bool_decide (SvConnEnd sid ∈ v_trace s)) &&
-          match lt with Some t => 0 <=? t | None => true end
-      | SUnlock _ k => presentedb s k
-      | SRenew _ k lt => presentedb s k && (0 <? lt)
+          match lt with Some t => 0 <=? t | None => true end && net_openb s
+      | SUnlock _ k => presentedb s k && net_openb s
+      | SRenew _ k lt => presentedb s k && (0 <? lt) && net_openb s
       | _ => true
       end
   | VConnect sid => negb (bool_decide (SvConnect sid ∈ v_trace s))
@@ -62,14 +70,16 @@ Definition sitem_okb (s : svstate) (it : sitem) : bool :=
   end.
 Lemma acq_ok s sid k lt :
   thr_all s (λ t, negb (has_key k t)) && bool_decide (SvConnect sid ∈ v_trace s) && negb (bool_decide (SvConnEnd sid ∈ v_trace s)) &&
-    match lt with Some t => 0 <=? t | None => true end = true →
-  (∀ tid' t', v_thr s !! tid' = Some t' → op_key' (st_op t') ≠ Some k) ∧ ev_in (SvConnect sid) s ∧ ¬ ev_in (SvConnEnd sid) s ∧ (∀ t, lt = Some t → 0 ≤ t).
+    match lt with Some t => 0 <=? t | None => true end && net_openb s = true →
+  (∀ tid' t', v_thr s !! tid' = Some t' → op_key' (st_op t') ≠ Some k) ∧ ev_in (SvConnect sid) s ∧ ¬ ev_in (SvConnEnd sid) s ∧ (∀ t, lt = Some t → 0 ≤ t) ∧
+  net_open s.
 Proof.
-  intros H. apply andb_prop in H as [H H4]. apply andb_prop in H as [H H3]. apply andb_prop in H as [H1 H2]. split_and!.
+  intros H. apply andb_prop in H as [H H5]. apply andb_prop in H as [H H4]. apply andb_prop in H as [H H3]. apply andb_prop in H as [H1 H2]. split_and!.
   - intros tid' t' Ht. apply (thr_all_sound _ _ H1) in Ht. unfold has_key in Ht. apply negb_true_iff, bool_decide_eq_false in Ht. done.
   - by apply bool_decide_eq_true in H2.
   - by apply negb_true_iff, bool_decide_eq_false in H3.
   - intros t ->. lia.
+  - by apply net_openb_sound.
 Qed.
 Lemma sitem_okb_sound s it : sitem_okb s it = true → sitem_ok s it.
 Proof.
@@ -77,8 +87,8 @@ Proof.
   - destruct op; try done.
     + apply acq_ok.
     + apply acq_ok.
-    + apply presentedb_sound.
-    + intros [H ?]%andb_prop. split; [by apply presentedb_sound|lia].
+    + intros [H ?]%andb_prop. split; [by apply presentedb_sound|by apply net_openb_sound].
+    + intros [H ?]%andb_prop. apply andb_prop in H as [H ?]. split_and!; [by apply presentedb_sound|lia|by apply net_openb_sound].
   - (* VCancel: the wait timeout only while the Lock call is inside lockMgr.Lock (sitem_ok, corrected by svinv) *)
     intros H. apply orb_prop in H as [H|H]; [left; by apply bool_decide_eq_true in H|right].
     apply andb_prop in H as [H1 H2]. apply bool_decide_eq_true in H1. split; [done|].
